@@ -326,6 +326,49 @@ def _task_messages(_):
                                                         type(e).__name__),
                               'a %s call with body %r raised %r'
                               % (order, sig, e), rep, size=len(sig))
+    # the same reference bytes as they arrive over a connection: two
+    # messages (consecutive bodies of the list, opposite byte orders), the
+    # first read ending at every position inside the second message
+    from mcx.checks import c04
+    for i, (sig, refvals) in enumerate(fams):
+        sig2, refvals2 = fams[(i + 1) % len(fams)]
+        for le in (True, False):
+            res.count('states')
+            res.count('nontrivial')
+            m1 = R.encode_message(1, 90, {'path': '/p', 'member': 'A'},
+                                  sig, refvals, little=le)
+            m2 = R.encode_message(4, 91, {'path': '/p', 'member': 'B',
+                                          'interface': 'a.b'}, sig2,
+                                  refvals2, little=not le)
+            want = [R.as_plain(R.parse_sig(sig), refvals),
+                    R.as_plain(R.parse_sig(sig2), refvals2)]
+            step = 1 if len(m2) < 400 else 7
+            for k in list(range(0, len(m2) + 1, step)) + [len(m2)]:
+                res.count('evaluations')
+                res.count('transitions', 2)
+                try:
+                    p_, _t = c04.make_server()
+                    p_.dataReceived(c04.SERVER_HS)
+                    p_.dataReceived(m1 + m2[:k])
+                    if k < len(m2):
+                        p_.dataReceived(m2[k:])
+                    got = [m.body for m in p_.got]
+                    ok = len(got) == 2 and R.same(got[0], want[0]) and \
+                        R.same(got[1], want[1])
+                    what = 'delivered %d message(s) with bodies %r' % (
+                        len(got), got) if not ok else ''
+                except Exception as e:
+                    ok = False
+                    what = 'raised %r' % (e,)
+                if not ok:
+                    res.violation(
+                        '%s/message/stream/%s' % (PROP, sig),
+                        'two messages (bodies %r and %r, %s-endian then the '
+                        'other) arriving as one read of the first and %d '
+                        'bytes of the second, then the rest: %s'
+                        % (sig, sig2, 'little' if le else 'big', k, what),
+                        rep, size=len(sig))
+                    break
     # the encoding of a call is a function of that call alone: sequences of
     # calls (with and without descriptor arguments) issued one after the
     # other through one connection, each read by the reference parser
